@@ -45,7 +45,7 @@ func sortedKeys[K ~uint8 | ~uint16](m map[K]string) []K {
 
 // genSpec: a random ClientHello whose lists are drawn from the WHOLE dictionaries (not only the code points
 // utls can negotiate), so over a run every dictionary entry the importer can be asked for is exercised.
-func genSpec(c *vh.Ctx) *tls.ClientHelloSpec {
+func genSpec(c *vh.Ctx, must uint16) *tls.ClientHelloSpec {
 	r := c.Rng
 	spec := &tls.ClientHelloSpec{}
 	allSuites := sortedKeys(dicttls.DictCipherSuiteValueIndexed)
@@ -94,35 +94,19 @@ func genSpec(c *vh.Ctx) *tls.ClientHelloSpec {
 		&tls.KeyShareExtension{KeyShares: ks}, &tls.SupportedVersionsExtension{Versions: vers},
 		&tls.PSKKeyExchangeModesExtension{Modes: []uint8{tls.PskModeDHE}},
 	}
-	opt := []func() tls.TLSExtension{
-		func() tls.TLSExtension { return &tls.ALPNExtension{AlpnProtocols: []string{"h2", "http/1.1"}} },
-		func() tls.TLSExtension { return &tls.StatusRequestExtension{} },
-		func() tls.TLSExtension { return &tls.SCTExtension{} },
-		func() tls.TLSExtension { return &tls.ExtendedMasterSecretExtension{} },
-		func() tls.TLSExtension { return &tls.RenegotiationInfoExtension{Renegotiation: tls.RenegotiateOnceAsClient} },
-		func() tls.TLSExtension {
-			pf := []byte{0}
-			if r.Intn(2) == 0 {
-				pf = []byte{0, 1, 2}
-			}
-			return &tls.SupportedPointsExtension{SupportedPoints: pf}
-		},
-		func() tls.TLSExtension { return &tls.SessionTicketExtension{} },
-		func() tls.TLSExtension {
-			algs := [][]tls.CertCompressionAlgo{{tls.CertCompressionBrotli}, {tls.CertCompressionZlib, tls.CertCompressionBrotli, tls.CertCompressionZstd}}
-			return &tls.UtlsCompressCertExtension{Algorithms: algs[r.Intn(2)]}
-		},
-		func() tls.TLSExtension { return &tls.ApplicationSettingsExtension{SupportedProtocols: []string{"h2"}} },
-		func() tls.TLSExtension { return &tls.FakeRecordSizeLimitExtension{Limit: uint16(1 + r.Intn(16384))} },
-		func() tls.TLSExtension {
-			return &tls.SignatureAlgorithmsCertExtension{SupportedSignatureAlgorithms: []tls.SignatureScheme{tls.SignatureScheme(allSigs[r.Intn(len(allSigs))]), tls.PSSWithSHA256}}
-		},
-		func() tls.TLSExtension { return &tls.UtlsPaddingExtension{GetPaddingLen: tls.BoringPaddingStyle} },
-	}
-	for _, f := range opt {
-		if r.Intn(2) == 0 {
-			exts = append(exts, f())
+	base := map[uint16]bool{0: true, 10: true, 13: true, 51: true, 43: true, 45: true}
+	// every other extension type the JSON format can express: the forced one always, the others with probability 1/3
+	expressible, _ := jsonTypes()
+	withPSK := false
+	for _, id := range expressible {
+		if base[id] || !(id == must || r.Intn(3) == 0) {
+			continue
 		}
+		if id == 41 {
+			withPSK = true
+			continue
+		}
+		exts = append(exts, genExt(c, id, allSigs))
 	}
 	r.Shuffle(len(exts), func(i, j int) { exts[i], exts[j] = exts[j], exts[i] })
 	switch r.Intn(3) {
@@ -132,8 +116,81 @@ func genSpec(c *vh.Ctx) *tls.ClientHelloSpec {
 		exts = append([]tls.TLSExtension{&tls.UtlsGREASEExtension{}}, exts...)
 		exts = append(exts, &tls.UtlsGREASEExtension{})
 	}
+	if withPSK { // pre_shared_key must be the last extension
+		id := make([]byte, 8+r.Intn(24))
+		r.Read(id)
+		b := make([]byte, 32)
+		r.Read(b)
+		exts = append(exts, &tls.FakePreSharedKeyExtension{
+			Identities: []tls.PskIdentity{{Label: id, ObfuscatedTicketAge: r.Uint32()}}, Binders: [][]byte{b}})
+	}
 	spec.Extensions = exts
 	return spec
+}
+
+// genExt builds one extension of the given type with random content, optional parts present or absent.
+// A type the runner has no builder for is emitted with an empty body (and reported), so that a type newly taught to
+// the JSON importer is at least exercised by name.
+func genExt(c *vh.Ctx, id uint16, allSigs []uint16) tls.TLSExtension {
+	r := c.Rng
+	protos := func() []string {
+		return [][]string{nil, {"h2"}, {"h2", "http/1.1"}, {"h3", "h2"}}[r.Intn(4)]
+	}
+	sigs := func() []tls.SignatureScheme {
+		var l []tls.SignatureScheme
+		for k := 1 + r.Intn(4); k > 0; k-- {
+			l = append(l, tls.SignatureScheme(allSigs[r.Intn(len(allSigs))]))
+		}
+		return l
+	}
+	switch id {
+	case 5:
+		return &tls.StatusRequestExtension{}
+	case 11:
+		return &tls.SupportedPointsExtension{SupportedPoints: [][]byte{{0}, {0, 1, 2}}[r.Intn(2)]}
+	case 16:
+		p := protos()
+		if p == nil {
+			p = []string{"http/1.1"}
+		}
+		return &tls.ALPNExtension{AlpnProtocols: p}
+	case 17:
+		return &tls.StatusRequestV2Extension{}
+	case 18:
+		return &tls.SCTExtension{}
+	case 21:
+		return &tls.UtlsPaddingExtension{GetPaddingLen: tls.BoringPaddingStyle}
+	case 23:
+		return &tls.ExtendedMasterSecretExtension{}
+	case 24:
+		return &tls.FakeTokenBindingExtension{MajorVersion: uint8(r.Intn(2)), MinorVersion: uint8(10 + r.Intn(6)),
+			KeyParameters: [][]uint8{nil, {2}, {1, 2}, {0, 1, 2}}[r.Intn(4)]}
+	case 27:
+		algs := [][]tls.CertCompressionAlgo{{tls.CertCompressionBrotli}, {tls.CertCompressionZlib, tls.CertCompressionBrotli, tls.CertCompressionZstd}}
+		return &tls.UtlsCompressCertExtension{Algorithms: algs[r.Intn(2)]}
+	case 28:
+		return &tls.FakeRecordSizeLimitExtension{Limit: uint16(1 + r.Intn(16384))}
+	case 34:
+		return &tls.FakeDelegatedCredentialsExtension{SupportedSignatureAlgorithms: sigs()}
+	case 35:
+		return &tls.SessionTicketExtension{}
+	case 50:
+		return &tls.SignatureAlgorithmsCertExtension{SupportedSignatureAlgorithms: sigs()}
+	case 13172:
+		return &tls.NPNExtension{}
+	case 17513:
+		return &tls.ApplicationSettingsExtension{SupportedProtocols: protos()}
+	case 17613:
+		return &tls.ApplicationSettingsExtensionNew{SupportedProtocols: protos()}
+	case 30031:
+		return &tls.FakeChannelIDExtension{OldExtensionID: true}
+	case 30032:
+		return &tls.FakeChannelIDExtension{}
+	case 65281:
+		return &tls.RenegotiationInfoExtension{Renegotiation: tls.RenegotiateOnceAsClient}
+	}
+	c.Count(fmt.Sprintf("json-type-without-builder/%d", id))
+	return &tls.GenericExtension{Id: id}
 }
 
 func run(c *vh.Ctx) {
@@ -147,19 +204,31 @@ func run(c *vh.Ctx) {
 				c.Count("skip-build-error/" + p.name)
 				break
 			}
-			compareImports(c, p.name, raw, k == 0 && len(p.name)%2 == 0)
+			compareImports(c, p.name, raw, k == 0 && len(p.name)%2 == 0, k)
 		}
 	}
 	// generated hellos
-	for k := 0; k < c.N; k++ {
-		spec := genSpec(c)
+	expressible, rest := jsonTypes()
+	c.Extra["json_expressible_extension_types"] = expressible
+	c.Extra["known_but_not_json_expressible"] = fmt.Sprint(rest)
+	for k := 0; k < c.N || k < 3*len(expressible); k++ {
+		must := expressible[k%len(expressible)] // every expressible type is forced into >= 3 generated hellos
+		spec := genSpec(c, must)
 		raw, err := build(spec, tls.HelloCustom, c.Rng.Int63())
 		if err != nil {
 			c.Count("skip-generated-build-error")
+			fail(c, fmt.Sprintf("generated-hello-does-not-build/ext-%d", must), "a generated spec did not build (runner problem or the extension type cannot be marshaled)", map[string]any{"forced_extension": must}, err.Error(), "builds")
 			continue
 		}
-		compareImports(c, "generated", raw, k%5 == 0)
+		compareImports(c, fmt.Sprintf("generated+%d", must), raw, k%5 == 0, k/len(expressible))
 	}
+	var idle []uint16
+	for _, id := range expressible {
+		if c.Dist[fmt.Sprintf("ext-type-through-both-importers/%05d", id)] == 0 {
+			idle = append(idle, id)
+		}
+	}
+	c.Extra["json_types_not_exercised"] = idle
 
 	// names the dictionaries do not know: the importer must refuse, never guess a code point
 	for _, bad := range []string{"TLS_NOT_A_SUITE", "grease", "", "TLS_AES_128_GCM_SHA256 "} {
@@ -179,5 +248,15 @@ func run(c *vh.Ctx) {
 			c.Fail("json-import/unknown-name", "an unknown group name was accepted", map[string]any{"json": js}, "accepted", "error")
 		}
 		namedCase(c, "import-unknown", "CImportG", "SupportedGroups", named{names: []string{"x25519", bad}}, nil, err == nil, "unknown")
+	}
+}
+
+var failSeen = map[string]int{}
+
+// fail: at most three reports per key
+func fail(c *vh.Ctx, key, what string, input, got, want any) {
+	failSeen[key]++
+	if failSeen[key] <= 3 {
+		c.Fail(key, what, input, got, want)
 	}
 }
